@@ -282,6 +282,7 @@ class C01(Property):
             "scalar/list/dict/ObjectToken elements, an element-wise tag-preserving map in between; 1..4 concurrent parent tags; nesting "
             "1..3 (chained scatters and chained gathers; one gather with depth=d); arrival order at the gather imposed token by token "
             "(in-order, reversed, size-first, size-last, shuffled, all permutations for n<=3 in quick / n<=5 in thorough) or left to the shuffling event loop; "
+            "whole pipelines scatter^k -> Transformer -> gather^k (k<=3) and generated CWL scatter workflows (1-2 levels) run by the real executor; "
             "incomplete streams (missing size / missing elements / FAILED) for the forced-gathering branch. Every gather stage is "
             "compared with the Lean model (driver) on the same event list; complete streams are checked against the property "
             "(exactly one list per key, original tag, original values in original order). Non-trivial = distinct (depth, arrival order) with n>=2.")
@@ -295,8 +296,9 @@ class C01(Property):
     technique = ("Lean 4 theorems about an executable model of ScatterStep._scatter / GatherStep.run (any arrival order, any length, several keys, "
                  "depth parameter, nesting, forced gathering) + ast translator of the guards + differential correspondence on the real step classes")
     level_text = ("grade A: unbounded theorems — scatter tags, uniqueness of the compare_tags-sorted permutation (0.10 after 0.9 proved), gather of any "
-                  "interleaving of element/size tokens yields exactly one list per key in index order (single key, several concurrent keys, depth d, "
-                  "chained nested gathers), forced gathering; guards regenerated from the source each run; model compared with the real steps")
+                  "interleaving of element/size tokens yields exactly one list per key in index order (single key, several concurrent keys, any depth d, "
+                  "chained nested gathers of ANY depth with every stage in any order, termination tokens anywhere), forced gathering; guards regenerated "
+                  "from the source each run; model compared with the real steps, whole pipelines and CWL scatter workflows under the real executor")
     level_note = ("Lean kernel, axioms within {propext, Classical.choice, Quot.sound}; trusts the gatherguards/tagguards extractors and the "
                   "event-list abstraction of asyncio.wait; the K-check drives the real ScatterStep/GatherStep with real ports")
     assumptions = ["tags are dotted decimal strings rooted at 0 with more components than the gather depth",
